@@ -140,6 +140,30 @@ def run(c):
                 i0 = next((k for k in range(min(len(enc), len(want))) if enc[k] != want[k]), min(len(enc), len(want)))
                 c.violation("C18:encode:wrong:large:%s:lane=%s" % ("padding-inside-text" if "=" in enc.rstrip("=") else "text", lane),
                             "encode of %d bytes differs from RFC 4648 at text offset %d (got %r, want %r)" % (len(data), i0, enc[i0:i0 + 12], want[i0:i0 + 12]), {"input_len": len(data), "seed": c.seed, "offset": i0})
+    # concurrent FIRST use: fresh processes in which 8 threads start encoding / decoding at the same instant
+    c.need("cold concurrent first use")
+    vecs = [b"", b"f", b"fo", b"foo", b"foob", b"fooba", b"foobar", bytes(range(256)), rng.bytes(100), b"\xff" * 7, base64.b64decode(ALPHABET * 2)]
+    ccases = [core.Case("v%d" % i, "b64.roundtrip", [v]) for i, v in enumerate(vecs)]
+    trials = core.cold_race(ccases, trials=60 if c.quick else 1500, threads=8)
+    for ti, tr in enumerate(trials):
+        if tr is None:
+            c.inconc("cold-race process did not finish")
+            continue
+        for th, res in tr.items():
+            for i, v in enumerate(vecs):
+                c.ev()
+                got = res.get("v%d" % i)
+                c.seen("cold concurrent first use")
+                if got is None:
+                    c.inconc("cold-race result missing")
+                    continue
+                outcome, f = got
+                want = base64.b64encode(v)
+                ok = outcome == "ok" and len(f) >= 3 and f[0] == want and f[1] == b"ok" and f[2] == v
+                if not ok:
+                    what = "panic" if outcome == "panic" else ("err" if outcome == "err" or (len(f) > 1 and f[1] != b"ok") else ("encode-wrong" if (f and f[0] != want) else "decode-wrong"))
+                    c.violation("C18:cold-concurrent-first-use:%s" % what, "in a fresh process with 8 threads starting at once, thread %s got %s for %r (want %r): %r" % (th, outcome, v[:16], want[:24], [x[:24] for x in f[:3]]), {"input_hex": v.hex(), "trial": ti})
+        c.cls("cold-race", ti % 4)
     for ch in ALPHABET:
         c.need("alphabet character %r seen in encoder output" % ch)
         if ch in seen_chars:
